@@ -32,6 +32,7 @@ import Distill.Model.AbsURL
 import Distill.Model.Style
 import Distill.Model.Candidates
 import Distill.Model.LinkScore
+import Distill.Model.PageInfo
 namespace Distill.Slices
 open Distill Distill.Proto
 
@@ -328,6 +329,15 @@ def linkscoreSlice : P String := do
   | .ignored why => pure s!"I:{why}"
   | .banned => pure "B"
   | .cand sc => pure s!"C:{sc}"
+
+/-- `pageinfo text resolved requestOK sameHost parseOK cleaned` → `getPageInfoAndText` -/
+def pageinfoSlice : P String := do
+  let text ← str; let resolved ← str
+  let requestOK ← bool; let sameHost ← bool; let parseOK ← bool
+  let cleaned ← str
+  match PageInfo.pageInfo text ⟨resolved, requestOK, sameHost, parseOK, cleaned⟩ with
+  | some (n, u) => pure s!"{n} {hex u}"
+  | none => pure "-"
 
 /-- `pagediff page href skip` → `getPageDiff` -/
 def pagediffSlice : P String := do
@@ -722,6 +732,7 @@ def dispatch (slice : String) : Option (P String) :=
   | "candidates" => some candidatesSlice
   | "linkscore" => some linkscoreSlice
   | "pagediff" => some pagediffSlice
+  | "pageinfo" => some pageinfoSlice
   | "strip" => some stripSlice
   | "title" => some titleSlice
   | "textblocks" => some textblocksSlice
